@@ -29,9 +29,9 @@ type opR struct {
 type caseR struct {
 	Ops      []opR `json:"ops"`
 	Schedule []int `json:"schedule"`
-	Versions bool  `json:"versioned"` // bucket versioning enabled
-	Fresh    bool  `json:"fresh"`     // the bucket does not exist when the race starts (competing creations)
-	Stall    []int `json:"stall,omitempty"` // stall[i] = for how many scheduler moves operation i stays parked while others can move
+	Versions bool  `json:"versioned"`          // bucket versioning enabled
+	Fresh    bool  `json:"fresh"`              // the bucket does not exist when the race starts (competing creations)
+	Stall    []int `json:"stall,omitempty"`    // stall[i] = for how many scheduler moves operation i stays parked while others can move
 	StallAt  []int `json:"stall_at,omitempty"` // stall_at[i] = how many of its steps operation i takes before it stalls
 }
 
